@@ -37,6 +37,17 @@ for d in sorted(glob.glob(os.path.join(V, "seeded", "*"))):
     verdict = "exit %s" % cf.get("check_exit_on_changed_tree")
     if co:
         verdict += ", " + ("no-failing-input-found" if all("no-failing-input-found" in l for l in co) else "VIOLATION with failing input")
+    rc = m.get("reconfirmed")
+    if rc:
+        if not rc.get("patch_applies", True):
+            verdict += "; at /repo %s the patch no longer applies (a later fix rewrote these lines)" % rc.get("repo_head")
+        else:
+            ex = rc.get("checks", {})
+            own = ex.get(m.get("property"))
+            verdict = "exit %s%s (re-run at /repo %s)" % (own, ", VIOLATION with failing input" if rc.get("with_failing_input") else (", no-failing-input-found" if rc.get("only_broken_obligation") else ""), rc.get("repo_head"))
+            first = cf.get("check_exit_on_changed_tree")
+            if first == 0 and own == 1:
+                verdict += "; missed at the first trial, caught after the strengthening described above"
     j = m.get("judged")
     if j and not j.get("violates_claimed_property", True):
         verdict += "; judged: %s holds as stated, the change violates %s and `bin/check %s` reports it" % (m.get("property"), j.get("violated_property"), j.get("reported_by_check"))
